@@ -501,22 +501,22 @@ package stree
 //@ func (*node).inorder
 //@   ghost cmp func(T, T) int
 //@   role f yield
-//@   requires [C01] treeOK(n, cmp)
-//@   ensures  [C01] count: ncalls(f) >= old(ncalls(f)) && ncalls(f) - old(ncalls(f)) <= cntOf(n) && (result ==> ncalls(f) - old(ncalls(f)) == cntOf(n))
-//@   ensures  [C01] members: forall j int :: {callarg(f, j)} old(ncalls(f)) <= j && j < ncalls(f) ==> inK(n, rank(cmp, callarg(f, j))) && callarg(f, j) == n.rep[rank(cmp, callarg(f, j))]
-//@   ensures  [C01] ascending: forall a int, b int :: {callarg(f, a), callarg(f, b)} old(ncalls(f)) <= a && a < b && b < ncalls(f) ==> rank(cmp, callarg(f, a)) < rank(cmp, callarg(f, b))
-//@   ensures  [C01] went: forall j int :: {callret(f, j)} old(ncalls(f)) <= j && j < ncalls(f) - 1 ==> callret(f, j)
-//@   ensures  [C01] stopped: !result ==> ncalls(f) > old(ncalls(f)) && !callret(f, ncalls(f) - 1)
-//@   ensures  [C01] finished: result ==> forall j int :: {callret(f, j)} old(ncalls(f)) <= j && j < ncalls(f) ==> callret(f, j)
-//@   ensures  [C01] older: forall j int :: {callarg(f, j)} {callret(f, j)} 0 <= j && j < old(ncalls(f)) ==> callarg(f, j) == old(callarg(f, j)) && callret(f, j) == old(callret(f, j))
+//@   requires [C01,C03] treeOK(n, cmp)
+//@   ensures  [C01,C03] count: ncalls(f) >= old(ncalls(f)) && ncalls(f) - old(ncalls(f)) <= cntOf(n) && (result ==> ncalls(f) - old(ncalls(f)) == cntOf(n))
+//@   ensures  [C01,C03] members: forall j int :: {callarg(f, j)} old(ncalls(f)) <= j && j < ncalls(f) ==> inK(n, rank(cmp, callarg(f, j))) && callarg(f, j) == n.rep[rank(cmp, callarg(f, j))]
+//@   ensures  [C01,C03] ascending: forall a int, b int :: {callarg(f, a), callarg(f, b)} old(ncalls(f)) <= a && a < b && b < ncalls(f) ==> rank(cmp, callarg(f, a)) < rank(cmp, callarg(f, b))
+//@   ensures  [C01,C03] went: forall j int :: {callret(f, j)} old(ncalls(f)) <= j && j < ncalls(f) - 1 ==> callret(f, j)
+//@   ensures  [C01,C03] stopped: !result ==> ncalls(f) > old(ncalls(f)) && !callret(f, ncalls(f) - 1)
+//@   ensures  [C01,C03] finished: result ==> forall j int :: {callret(f, j)} old(ncalls(f)) <= j && j < ncalls(f) ==> callret(f, j)
+//@   ensures  [C01,C03] older: forall j int :: {callarg(f, j)} {callret(f, j)} 0 <= j && j < old(ncalls(f)) ==> callarg(f, j) == old(callarg(f, j)) && callret(f, j) == old(callret(f, j))
 //@   modifies calls(f)
 //@   call inorder#1: cmp = cmp
-//@   loop 1: invariant [C01] older: forall j int :: {callarg(f, j)} {callret(f, j)} 0 <= j && j < old(ncalls(f)) ==> callarg(f, j) == old(callarg(f, j)) && callret(f, j) == old(callret(f, j))
-//@   loop 1: invariant [C01] shape: treeOK(old(n), cmp) && (n != nil ==> old(n) != nil && n in old(n).desc)
-//@   loop 1: invariant [C01] count: ncalls(f) >= old(ncalls(f)) && ncalls(f) - old(ncalls(f)) + cntOf(n) == cntOf(old(n))
-//@   loop 1: invariant [C01] members: forall j int :: {callarg(f, j)} {callret(f, j)} old(ncalls(f)) <= j && j < ncalls(f) ==> inK(old(n), rank(cmp, callarg(f, j))) && callarg(f, j) == old(n).rep[rank(cmp, callarg(f, j))] && callret(f, j)
-//@   loop 1: invariant [C01] below: forall j int :: {callarg(f, j)} old(ncalls(f)) <= j && j < ncalls(f) ==> (forall k int :: {k in n.keys} inK(n, k) ==> rank(cmp, callarg(f, j)) < k)
-//@   loop 1: invariant [C01] ascending: forall a int, b int :: {callarg(f, a), callarg(f, b)} old(ncalls(f)) <= a && a < b && b < ncalls(f) ==> rank(cmp, callarg(f, a)) < rank(cmp, callarg(f, b))
+//@   loop 1: invariant [C01,C03] older: forall j int :: {callarg(f, j)} {callret(f, j)} 0 <= j && j < old(ncalls(f)) ==> callarg(f, j) == old(callarg(f, j)) && callret(f, j) == old(callret(f, j))
+//@   loop 1: invariant [C01,C03] shape: treeOK(old(n), cmp) && (n != nil ==> old(n) != nil && n in old(n).desc)
+//@   loop 1: invariant [C01,C03] count: ncalls(f) >= old(ncalls(f)) && ncalls(f) - old(ncalls(f)) + cntOf(n) == cntOf(old(n))
+//@   loop 1: invariant [C01,C03] members: forall j int :: {callarg(f, j)} {callret(f, j)} old(ncalls(f)) <= j && j < ncalls(f) ==> inK(old(n), rank(cmp, callarg(f, j))) && callarg(f, j) == old(n).rep[rank(cmp, callarg(f, j))] && callret(f, j)
+//@   loop 1: invariant [C01,C03] below: forall j int :: {callarg(f, j)} old(ncalls(f)) <= j && j < ncalls(f) ==> (forall k int :: {k in n.keys} inK(n, k) ==> rank(cmp, callarg(f, j)) < k)
+//@   loop 1: invariant [C01,C03] ascending: forall a int, b int :: {callarg(f, a), callarg(f, b)} old(ncalls(f)) <= a && a < b && b < ncalls(f) ==> rank(cmp, callarg(f, a)) < rank(cmp, callarg(f, b))
 //@
 //@ func (*Tree).Inorder
 //@   role yield yield
@@ -532,10 +532,10 @@ package stree
 //@ func (*Cursor).Inorder
 //@   ghost cmp func(T, T) int
 //@   role yield yield
-//@   requires [C01] c != nil ==> (forall k int :: {c.path[k]} 0 <= k && k < len(c.path) ==> c.path[k] != nil) && (len(c.path) > 0 ==> treeOK(c.path[len(c.path) - 1], cmp))
-//@   ensures  [C01] invalid: c == nil || len(c.path) == 0 ==> ncalls(yield) == old(ncalls(yield))
-//@   ensures  [C01] members: c != nil && len(c.path) > 0 ==> forall j int :: {callarg(yield, j)} old(ncalls(yield)) <= j && j < ncalls(yield) ==> inK(c.path[len(c.path) - 1], rank(cmp, callarg(yield, j)))
-//@   ensures  [C01] ascending: forall a int, b int :: {callarg(yield, a), callarg(yield, b)} old(ncalls(yield)) <= a && a < b && b < ncalls(yield) ==> rank(cmp, callarg(yield, a)) < rank(cmp, callarg(yield, b))
-//@   ensures  [C01] count: c != nil && len(c.path) > 0 ==> ncalls(yield) - old(ncalls(yield)) <= cntOf(c.path[len(c.path) - 1]) && (ncalls(yield) - old(ncalls(yield)) < cntOf(c.path[len(c.path) - 1]) ==> ncalls(yield) > old(ncalls(yield)) && !callret(yield, ncalls(yield) - 1))
+//@   requires [C01,C03] c != nil ==> (forall k int :: {c.path[k]} 0 <= k && k < len(c.path) ==> c.path[k] != nil) && (len(c.path) > 0 ==> treeOK(c.path[len(c.path) - 1], cmp))
+//@   ensures  [C01,C03] invalid: c == nil || len(c.path) == 0 ==> ncalls(yield) == old(ncalls(yield))
+//@   ensures  [C01,C03] members: c != nil && len(c.path) > 0 ==> forall j int :: {callarg(yield, j)} old(ncalls(yield)) <= j && j < ncalls(yield) ==> inK(c.path[len(c.path) - 1], rank(cmp, callarg(yield, j)))
+//@   ensures  [C01,C03] ascending: forall a int, b int :: {callarg(yield, a), callarg(yield, b)} old(ncalls(yield)) <= a && a < b && b < ncalls(yield) ==> rank(cmp, callarg(yield, a)) < rank(cmp, callarg(yield, b))
+//@   ensures  [C01,C03] count: c != nil && len(c.path) > 0 ==> ncalls(yield) - old(ncalls(yield)) <= cntOf(c.path[len(c.path) - 1]) && (ncalls(yield) - old(ncalls(yield)) < cntOf(c.path[len(c.path) - 1]) ==> ncalls(yield) > old(ncalls(yield)) && !callret(yield, ncalls(yield) - 1))
 //@   modifies calls(yield)
 //@   call inorder#1: cmp = cmp
